@@ -686,8 +686,12 @@ func (m *Machine) Finish() *Outcome {
 }
 
 // Run evaluates a whole accepted program.
-func Run(p *Program) *Outcome {
+func Run(p *Program) *Outcome { return RunWith(p, 1<<16) }
+
+// RunWith evaluates with a given bound on specified string repetition results.
+func RunWith(p *Program, maxRepeat int) *Outcome {
 	m := NewMachine()
+	m.MaxRepeat = maxRepeat
 	for _, s := range p.Stmts {
 		m.Exec(s)
 	}
